@@ -764,7 +764,7 @@ class Fxp():
         if _val_list is not None and val.dtype.kind == 'f' and val.size > 0 and np.max(np.abs(val)) >= 2**63:
             # python integers beyond 64 bits mixed with shorter ones: numpy chooses float64, the integers are kept instead
             _val_obj = np.array(_val_list, dtype=object)
-            if all(isinstance(v, int) for v in _val_obj.ravel()):
+            if all(isinstance(v, (int, np.integer)) for v in _val_obj.ravel()):
                 val = _val_obj
 
         if val.dtype == object:
